@@ -17,7 +17,7 @@ from tools.props import c06_gen as gen
 from tools.props import c06_ts as tsread
 
 MANIFEST = {
-    "level_text": "Coq theorems (Properties/C06.v, no axioms) about a Gallina transcription of serde_parser.rs (substring scanners on the proc_macro2 token string), struct_parser.rs (skip filter), NamingContext::compute_field_name and serde-rename-rule's apply_to_field: for every container kind, container rename_all, ASCII identifier and attribute list (rename = any string, skip, any other name / name = any string, in any order, in one or several #[serde] attributes) outside six narrow recorded classes the emitted names are exactly serde's wire names (serde_derive case.rs apply_to_field / apply_to_variant, item rename wins, absent iff skip), and other attributes are inert there; each class has a computed counterexample. Tied to /repo on every run: ~10^4 containers through the real StructParser, FieldContext and both generators (keys read back from types.ts) against the extracted model and oracle.",
+    "level_text": "Coq theorems (Properties/C06.v, no axioms) about a Gallina transcription of serde_parser.rs (substring scanners on the proc_macro2 token string), struct_parser.rs (skip filter for fields and variants), NamingContext::apply_naming_convention / compute_field_name / compute_variant_name and serde-rename-rule's apply_to_field / apply_to_variant (the code with the repairs C06-1-variant-rule, C06-6-variant-skip, C15 rename-restart-offset and camel-call-site-guard): for every container kind, container rename_all, ASCII identifier and attribute list (rename = any string, skip, any other name / name = any string, in any order, in one or several #[serde] attributes) outside the four remaining narrow recorded classes (substring detection of skip / rename, unescaped rename values) the emitted names are exactly serde's wire names (serde_derive case.rs apply_to_field / apply_to_variant, item rename wins, absent iff skip), and other attributes are inert there; each class has a computed counterexample. Tied to /repo on every run: ~10^4 containers through the real StructParser, FieldContext and both generators (keys read back from types.ts) against the extracted model and oracle.",
     "design_ref": "DESIGN.md section 5 C06",
     "level_note": "Identifiers are ASCII (Unicode case predicates of apply_to_variant are not modelled); raw identifiers (r#type) are outside the domain. The default_field_case setting is fixed to its default (snake_case) in the theorems. String-literal bodies read back from types.ts are compared as raw text (no JavaScript unescaping), so a backslash-only rename on an enum variant is counted inside class C06-4 although its JS literal happens to denote the right string. The specification of serde's rules is a transcription of serde_derive's case.rs, compared on every run with types derived by the real serde_derive on a fixed set of 18 containers (finite validation, not a proof). The tie between model and code is differential (bounded).",
     "technique": "Rocq/Coq proof over hand-written model + correspondence check (extracted OCaml vs Rust harness)"
@@ -36,7 +36,7 @@ TRUSTED = [
 ]
 ASSUMPTIONS = ["identifiers are ASCII; configuration default_field_case = snake_case (the default) wherever the oracle is applied"]
 
-KF_IDS = ["C06-1", "C06-2", "C06-3", "C06-4", "C06-5", "C06-6"]
+KF_IDS = ["C06-2", "C06-3", "C06-4", "C06-5"]      # order of ExC06.c06_classes; C06-1 and C06-6 are repaired
 
 
 def container_sx(c):
